@@ -178,6 +178,13 @@ def postcondition(r, user, status, before, after):
             return "the collection does not exist afterwards"
         if _items(after[target]):
             return "the new collection is not empty"
+        want_tag = "VCALENDAR" if m == "MKCALENDAR" else (r.get("tag") or "")
+        if after[target]["tag"] != want_tag:
+            return "the new collection has type %r, the request asked for %r" % (after[target]["tag"], want_tag)
+        have = {tuple(x) for x in after[target]["props"]}
+        missing = [list(x) for x in r.get("props", []) if tuple(x) not in have]
+        if missing:
+            return "the new collection lacks the properties %s set by the request" % missing
         return unchanged_except(paths_prefix=(target,))
     if m == "PROPPATCH":
         return unchanged_except()
